@@ -45,6 +45,10 @@ func c17Tokens() []c17Tok {
 		// a colon directly after the marker AND a parenthesised assignee after that colon
 		{Text: "// TODO: (cy) msg4", Kind: "line", Expect: "req", Assignee: "cy", Message: "msg4"},
 		{Text: "# FIXME: (di): msg5", Kind: "hash", Expect: "req", Assignee: "di", Message: "msg5"},
+		// a comment of one kind whose text begins with the marker of another kind: the text does not start with TODO
+		{Text: "//# TODO: not-a-todo", Kind: "line"},
+		{Text: "/* # FIXME(al): not-a-todo */", Kind: "block"},
+		{Text: "## TODO twice", Kind: "hash", Expect: "opt"},
 		{Text: "// TODOS plural", Kind: "line", Expect: "opt"},
 		{Text: "// see TODO later", Kind: "line"},
 		{Text: "// é TODO after non-ascii", Kind: "line"},
